@@ -145,9 +145,22 @@ def step_harness(log, kinds=("san", "prod")):
                                  "-I%s/harness" % ROOT, '-DVERIF_UNITY="%s"' % unity] + flags + \
                   [os.path.join(ROOT, "harness", "h_main.c"), "-o", harness_path(cfg, kind) + ".new", "-lm", "-lpthread"]
             procs.append((name, cfg, kind, subprocess.Popen(cmd, stdout=subprocess.PIPE, stderr=subprocess.STDOUT)))
+    results = []
     for name, cfg, kind, p in procs:
         out = p.communicate()[0].decode(errors="replace")
         if p.returncode != 0:
+            # a changed signature of a static leaf function must not take the whole harness down: once more without the
+            # direct leaf calls (they then answer NOLEAF and show up as disagreements of the leaf suites only)
+            cmd2 = list(p.args)
+            cmd2.insert(1, "-DH_NO_LEAF")
+            p2 = subprocess.run(cmd2, stdout=subprocess.PIPE, stderr=subprocess.STDOUT)
+            if p2.returncode == 0:
+                log.setdefault("harness_leaf_disabled", {})[name] = out[-600:]
+                results.append((name, cfg, kind, 0, out))
+                continue
+        results.append((name, cfg, kind, p.returncode, out))
+    for name, cfg, kind, rc_, out in results:
+        if rc_ != 0:
             ok = False
             log.setdefault("harness_errors", {})[name] = out[-1500:]
             stamp_clear(name)
